@@ -1,130 +1,117 @@
-From Coq Require Import List NArith Arith Lia Bool.
+(* C14 — executable model of HyperLogLogWCache
+   (outrank/algorithms/sketches/counting_ultiloglog.py).  No proofs here.
+
+   Parametric in the number of index bits [p], the warm-up capacity [W] (= warmup_size),
+   the register width constant [width] (= 64 - p in the code) and the hash oracle
+   [hash : value -> N] (xxh32(seed = p) of the value's bytes; ANY function for the theorems).
+   Values are harness-assigned ids (N): equality of ids = Python equality of the inserted values. *)
+From Coq Require Import List NArith ZArith Arith Bool.
 Import ListNotations.
 
 Section HLL.
-  Variable W : nat.                    (* warm-up capacity, 2^(p-1) *)
-  Variables bucket rho : N -> N.       (* hash oracle split into register index and rank *)
-  Hypothesis rho_pos : forall v, (0 < rho v)%N.   (* C14_touched: rank >= 32 for p = 19 *)
+  Variable p : N.
+  Variable W : nat.
+  Variable width : N.
+  Variable hash : N -> N.
 
-  Inductive st := Warm (s : list N) | Cold (r : N -> N).
-  Definition mem (v : N) (s : list N) := existsb (N.eqb v) s.
-  Definition upd (r : N -> N) (v : N) : N -> N := fun j => if (j =? bucket v)%N then N.max (r j) (rho v) else r j.
-  Definition zero : N -> N := fun _ => 0%N.
-  (* repaired add: seen values stay exact; the triggering value is hashed too *)
+  Definition m : N := (2 ^ p)%N.                         (* self.m = 1 << self.p *)
+  Definition mn : nat := N.to_nat m.
+
+  (* j = x & (self.m - 1) *)
+  Definition bucket (v : N) : nat := N.to_nat (N.land (hash v) (m - 1)).
+  (* w = x >> self.p ; rho = self.width - w.bit_length()
+     (truncated subtraction: a negative rho never changes a register that starts at 0) *)
+  Definition rho (v : N) : N := (width - N.size (N.shiftr (hash v) p))%N.
+
+  Inductive st := Warm (s : list N) | Cold (r : list N).
+
+  Definition mem (v : N) (s : list N) : bool := existsb (N.eqb v) s.
+
+  (* self.M[j] = max(self.M[j], rho) *)
+  Fixpoint updl (r : list N) (j : nat) (x : N) : list N :=
+    match r, j with
+    | [], _ => []
+    | a :: r', O => N.max a x :: r'
+    | a :: r', S k => a :: updl r' k x
+    end.
+  Definition upd (r : list N) (v : N) : list N := updl r (bucket v) (rho v).   (* _hasher_update *)
+
+  Definition zero : list N := repeat 0%N mn.               (* np.zeros(self.m) *)
+  Definition convert (s : list N) : list N := fold_left upd s zero.
+
+  (* add(value), after fix 79c2775 *)
   Definition add (t : st) (v : N) : st :=
     match t with
-    | Warm s => if mem v s then Warm s
-                else if length s <? W then Warm (v :: s)
-                else Cold (upd (fold_left upd s zero) v)
+    | Warm s =>
+        if (length s <? W)%nat || mem v s
+        then Warm (if mem v s then s else v :: s)          (* self.warmup_set.add(value) *)
+        else Cold (upd (convert s) v)                      (* convert, then hash the trigger value *)
     | Cold r => Cold (upd r v)
     end.
+
   Definition run (l : list N) : st := fold_left add l (Warm []).
 
-  Fixpoint maxrank (j : N) (l : list N) : N :=
-    match l with [] => 0%N | v :: r => if (j =? bucket v)%N then N.max (rho v) (maxrank j r) else maxrank j r end.
-
-  Lemma mem_In v s : mem v s = true <-> In v s.
-  Proof. unfold mem. rewrite existsb_exists. split; [intros [x [H E]]; apply N.eqb_eq in E; subst; exact H|intros H; exists v; split; [exact H|apply N.eqb_refl]]. Qed.
-
-  Lemma fold_upd s : forall r j, fold_left upd s r j = N.max (r j) (maxrank j s).
-  Proof.
-    induction s as [|v s IH]; intros r j; cbn [fold_left maxrank]; [lia|].
-    rewrite IH. unfold upd. destruct (j =? bucket v)%N; lia.
-  Qed.
-
-  Lemma maxrank_in j l v : In v l -> bucket v = j -> (rho v <= maxrank j l)%N.
-  Proof.
-    induction l as [|a l IH]; intros Hin Hb; [contradiction|]. cbn [maxrank].
-    destruct Hin as [->|Hin].
-    - rewrite Hb, N.eqb_refl. lia.
-    - specialize (IH Hin Hb). destruct (j =? bucket a)%N; lia.
-  Qed.
-
-  (* maxrank depends only on the set of values *)
-  Lemma maxrank_incl j l l' : incl l l' -> (maxrank j l <= maxrank j l')%N.
-  Proof.
-    induction l as [|a l IH]; intros Hi; cbn [maxrank]; [lia|].
-    assert (Hi' : incl l l') by (intros z Hz; apply Hi; now right). specialize (IH Hi').
-    destruct (j =? bucket a)%N eqn:E; [|exact IH]. apply N.eqb_eq in E.
-    pose proof (maxrank_in j l' a (Hi a (or_introl eq_refl)) (eq_sym E)). lia.
-  Qed.
-  Lemma maxrank_set j l l' : (forall v, In v l <-> In v l') -> maxrank j l = maxrank j l'.
-  Proof. intros H. apply N.le_antisymm; apply maxrank_incl; intros v Hv; apply H; exact Hv. Qed.
-
-  Definition distinct (l : list N) : nat := length (nodup N.eq_dec l).
-
-  (* the invariant: exact while warm; registers = function of the value SET once cold *)
-  Definition inv (l : list N) (t : st) : Prop :=
-    match t with
-    | Warm s => NoDup s /\ (forall v, In v s <-> In v l) /\ length s <= W
-    | Cold r => (forall j, r j = maxrank j l) /\ W < distinct l
+  (* the state after every prefix *)
+  Fixpoint trace (t : st) (l : list N) : list st :=
+    match l with
+    | [] => []
+    | v :: r => let t' := add t v in t' :: trace t' r
     end.
 
-  Lemma NoDup_same_set_len (s l : list N) : NoDup s -> (forall v, In v s <-> In v l) -> length s = distinct l.
-  Proof.
-    intros Hnd Hs. unfold distinct. apply Nat.le_antisymm.
-    - apply NoDup_incl_length; [exact Hnd|]. intros v Hv. apply nodup_In. apply Hs. exact Hv.
-    - apply NoDup_incl_length; [apply NoDup_nodup|]. intros v Hv. apply nodup_In in Hv. apply Hs. exact Hv.
-  Qed.
+  (* __len__: exact size while warm; otherwise the linear-counting value of the number z of
+     zero registers:  int(ceil(m * ln(m / z))) - 1,  or 2^p when z = 0.  The value is kept as a
+     term; the harness (and Sketch/HLLReal.v) give it its meaning. *)
+  Inductive lent := Exact (n : nat) | Est (z : N).
+  Definition zeros (r : list N) : N := N.of_nat (length (filter (N.eqb 0) r)).
+  Definition len (t : st) : lent :=
+    match t with Warm s => Exact (length s) | Cold r => Est (zeros r) end.
 
-  Lemma distinct_mono l v : distinct l <= distinct (l ++ [v]).
-  Proof.
-    unfold distinct. apply NoDup_incl_length; [apply NoDup_nodup|].
-    intros x Hx. apply nodup_In in Hx. apply nodup_In. apply in_or_app. now left.
-  Qed.
+  (* len as an integer, for any reading [lc] of the linear-counting term *)
+  Definition lenZ (lc : N -> Z) (t : st) : Z :=
+    match len t with Exact n => Z.of_nat n | Est z => lc z end.
 
-  Lemma inv_step l t v : inv l t -> inv (l ++ [v]) (add t v).
-  Proof.
-    destruct t as [s|r]; cbn [inv add].
-    - intros (Hnd & Hs & Hlen). destruct (mem v s) eqn:Em.
-      + apply mem_In in Em. cbn [inv]. repeat split; try assumption.
-        * intros H. apply in_or_app. left. apply Hs. exact H.
-        * intros H. apply in_app_or in H. destruct H as [H|[<-|[]]]; [apply Hs; exact H|exact Em].
-      + assert (Hnin : ~ In v s) by (intros H; apply mem_In in H; congruence).
-        destruct (length s <? W) eqn:El.
-        * apply Nat.ltb_lt in El. cbn [inv]. repeat split.
-          -- constructor; assumption.
-          -- intros [<-|H]; apply in_or_app; [right; now left|left; apply Hs; exact H].
-          -- intros H. apply in_app_or in H. destruct H as [H|[<-|[]]]; [right; apply Hs; exact H|now left].
-          -- cbn [length]. lia.
-        * apply Nat.ltb_ge in El. cbn [inv]. split.
-          -- intros j. unfold upd at 1. rewrite fold_upd. unfold zero.
-             rewrite (maxrank_set j (l ++ [v]) (v :: s)).
-             ++ cbn [maxrank]. destruct (j =? bucket v)%N; lia.
-             ++ intros x. split; intros H.
-                ** apply in_app_or in H. destruct H as [H|[<-|[]]]; [right; apply Hs; exact H|now left].
-                ** destruct H as [<-|H]; apply in_or_app; [right; now left|left; apply Hs; exact H].
-          -- assert (E : length (v :: s) = distinct (l ++ [v])).
-             { apply NoDup_same_set_len; [constructor; assumption|].
-               intros x. split; intros H.
-               - destruct H as [<-|H]; apply in_or_app; [right; now left|left; apply Hs; exact H].
-               - apply in_app_or in H. destruct H as [H|[<-|[]]]; [right; apply Hs; exact H|now left]. }
-             cbn [length] in E. lia.
-    - intros (Hr & Hd). split.
-      + intros j. unfold upd. rewrite Hr.
-        assert (E : maxrank j (l ++ [v]) = if (j =? bucket v)%N then N.max (maxrank j l) (rho v) else maxrank j l).
-        { clear. induction l as [|a l IH]; cbn [app maxrank]; [destruct (j =? bucket v)%N; lia|].
-          rewrite IH. destruct (j =? bucket a)%N, (j =? bucket v)%N; lia. }
-        rewrite E. reflexivity.
-      + pose proof (distinct_mono l v). lia.
-  Qed.
+  (* ---- the machine before fix 79c2775: the add that arrives when the warm-up set is full
+          converts and is itself dropped, even when it is a duplicate ---- *)
+  Definition add_old (t : st) (v : N) : st :=
+    match t with
+    | Warm s =>
+        if (length s <? W)%nat
+        then Warm (if mem v s then s else v :: s)
+        else Cold (convert s)
+    | Cold r => Cold (upd r v)
+    end.
+  Definition run_old (l : list N) : st := fold_left add_old l (Warm []).
 
-  Theorem inv_run l : inv l (run l).
-  Proof.
-    unfold run. rewrite <- (app_nil_l l) at 1.
-    assert (G : forall l0 t, inv l0 t -> inv (l0 ++ l) (fold_left add l t)).
-    { induction l as [|v l IH]; intros l0 t H; cbn [fold_left]; [rewrite app_nil_r; exact H|].
-      replace (l0 ++ v :: l) with ((l0 ++ [v]) ++ l) by (rewrite <- app_assoc; reflexivity).
-      apply IH. apply inv_step. exact H. }
-    apply (G [] (Warm [])). cbn. repeat split; try constructor; try tauto; lia.
-  Qed.
+  (* ---- specification side ---- *)
+  Definition distinct (l : list N) : nat := length (nodup N.eq_dec l).
+  (* per-bucket maximum rank over a collection of values *)
+  Fixpoint maxrank (j : nat) (l : list N) : N :=
+    match l with
+    | [] => 0%N
+    | v :: r => if Nat.eqb j (bucket v) then N.max (rho v) (maxrank j r) else maxrank j r
+    end.
+  Definition touched (l : list N) : nat := length (nodup Nat.eq_dec (map bucket l)).
 
-  (* C14_exact *)
-  Corollary exact_phase l : distinct l <= W -> exists s, run l = Warm s /\ length s = distinct l.
-  Proof.
-    intros Hd. pose proof (inv_run l) as H. destruct (run l) as [s|r]; cbn [inv] in H.
-    - exists s. split; [reflexivity|]. destruct H as (Hnd & Hs & _). apply NoDup_same_set_len; assumption.
-    - destruct H as [_ H]. lia.
-  Qed.
+  (* ---- observable printed for the harness: after every prefix (phase, n or z);
+          plus the final state (warm set / registers) ---- *)
+  Definition enc_len (t : st) : Z * Z :=
+    match len t with Exact n => (0%Z, Z.of_nat n) | Est z => (1%Z, Z.of_N z) end.
+  Definition enc_state (t : st) : Z * list N :=
+    match t with Warm s => (0%Z, s) | Cold r => (1%Z, r) end.
+  Definition obs (l : list N) : list (Z * Z) * (Z * list N) :=
+    let tr := trace (Warm []) l in
+    (map enc_len tr, enc_state (last tr (Warm []))).
+
+  (* ---- property-level checker on the IMPLEMENTATION's len() after every prefix:
+          exact while at most W distinct values were inserted; unchanged by a value seen before ---- *)
+  Fixpoint checkb (seen : list N) (prev : Z) (l : list N) (o : list Z) : list bool :=
+    match l, o with
+    | v :: l', x :: o' =>
+        let dup := mem v seen in
+        let seen' := if dup then seen else v :: seen in
+        ((if dup then Z.eqb x prev else true) &&
+         (if (length seen' <=? W)%nat then Z.eqb x (Z.of_nat (length seen')) else true))
+        :: checkb seen' x l' o'
+    | _, _ => []
+    end.
 End HLL.
-Print Assumptions exact_phase.
